@@ -237,7 +237,7 @@ fn run_c19(args: &Args) -> i32 {
     let workers = opt_u64(args, "workers", 16) as usize;
     let (def_mixed, def_ff, def_budget) = match tier {
         Tier::Quick => (150_000, 30_000, 120.0),
-        Tier::Thorough => (4_000_000, 600_000, 3000.0),
+        Tier::Thorough => (12_000_000, 1_500_000, 3000.0),
     };
     let runs_mixed = opt_u64(args, "runs", def_mixed);
     let runs_ff = opt_u64(args, "runs-fault-free", def_ff.min(runs_mixed));
